@@ -397,6 +397,10 @@ def date(year, month_, day):
     # Excel reference: https://support.microsoft.com/en-us/office/
     #   DATE-function-e36c0c8c-4104-49da-ab83-82328b832349
 
+    # of a year or a month which is not a whole number the whole part counts
+    # (like for the day below)
+    year, month_ = math.floor(year), math.floor(month_)
+
     if not (0 <= year <= 9999):
         return NUM_ERROR
 
@@ -507,7 +511,9 @@ def months_inc(start_date, months, eomonth=False):
         return VALUE_ERROR
     if not (0 <= start_date < DATE_MAX_INT):
         return NUM_ERROR
-    y, m, d = date_from_int(start_date)
+    # a number of months which is not a whole number is truncated
+    months = int(months)
+    y, m, d = date_from_int(math.floor(start_date))
     if eomonth:
         first = date(y, m + months, 1)
         if first in ERROR_CODES:
